@@ -1,10 +1,25 @@
-#!/bin/sh
-# tools/run_all.sh [quick|thorough] : run every registered check sequentially, summarise
-T=${1:-quick}
+#!/bin/bash
+# tools/run_all.sh [quick|thorough] [parallel] : run every registered check (default: one after the other;
+# with <parallel> N properties at a time), summarise in /tmp/verif_run_summary.txt
+T=${1:-quick}; PAR=${2:-1}
 cd /verif
-for n in 01 02 03 04 05 06 07 08 09 10 11 12 13 14 15 16 17 18 19 20; do
+./setup.sh || exit 3
+: > /tmp/verif_run_summary.txt
+run_one() {
+  n=$1; T=$2
   s=$(date +%s)
   ./check C$n --tier $T > /tmp/verif_run_C$n.log 2>&1; rc=$?
   e=$(date +%s)
-  echo "C$n rc=$rc $((e-s))s $(grep -E '^C[0-9]+ tier=' /tmp/verif_run_C$n.log | cut -c1-150) $(grep -c '^KNOWN-FINDING' /tmp/verif_run_C$n.log) known"
-done
+  echo "C$n rc=$rc $((e-s))s $(grep -E '^C[0-9]+ tier=' /tmp/verif_run_C$n.log | cut -c1-150) $(grep -c '^KNOWN-FINDING' /tmp/verif_run_C$n.log) known" | tee -a /tmp/verif_run_summary.txt
+}
+if [ "$PAR" -le 1 ]; then
+  for n in 01 02 03 04 05 06 07 08 09 10 11 12 13 14 15 16 17 18 19 20; do run_one $n $T; done
+else
+  # longest first, so that the tails overlap
+  for n in 01 03 15 08 12 09 17 07 05 04 02 11 10 13 14 16 18 19 06 20; do
+    while [ $(jobs -r | wc -l) -ge $PAR ]; do sleep 5; done
+    run_one $n $T &
+  done
+  wait
+fi
+sort /tmp/verif_run_summary.txt
